@@ -3,24 +3,27 @@ package scen
 import (
 	"bytes"
 	"encoding/binary"
+	"encoding/hex"
+	"encoding/json"
 	"fmt"
-	"path/filepath"
+	"slices"
 	"sort"
 	"strings"
 
 	"bsim/core"
 	"bsim/sched"
 
-	"github.com/blevesearch/bleve/v2/registry"
 	store "github.com/blevesearch/upsidedown_store_api"
 )
 
 // KVCfg configures the KV adapter scenario (C15).
 type KVCfg struct {
-	Store string       `json:"store"`          // boltdb goleveldb gtreap moss metrics-gtreap metrics-boltdb
-	MO    string       `json:"mo"`             // append | counter
-	Conc  bool         `json:"conc,omitempty"` // clients are scheduler tasks: calls of different clients overlap (kvconc.go)
-	Sched sched.Config `json:"sched"`
+	Store string `json:"store"` // boltdb goleveldb gtreap moss metrics-gtreap metrics-boltdb
+	MO    string `json:"mo"`    // append | counter
+	// MossGate: moss's merger is parked after every round and released by the batches marked MR (kvmoss.go)
+	MossGate bool         `json:"moss_gate,omitempty"`
+	Conc     bool         `json:"conc,omitempty"` // clients are scheduler tasks: calls of different clients overlap (kvconc.go)
+	Sched    sched.Config `json:"sched"`
 }
 
 // KVOp is one call of one logical client.
@@ -34,13 +37,31 @@ type KVOp struct {
 	A   int     `json:"a,omitempty"`   // range start (-1 = nil)
 	Z   int     `json:"z,omitempty"`   // range end (-1 = nil)
 	It  int     `json:"it,omitempty"`  // iterator slot (0/1)
+	MR  bool    `json:"mr,omitempty"`  // batch, gated moss: the merger runs until idle after this batch
 }
 
 // KVBOp is one operation inside a batch.
 type KVBOp struct {
 	T   string `json:"t"` // set | del | merge
 	Key int    `json:"key"`
-	Val string `json:"val,omitempty"`
+	Val KVVal  `json:"val,omitempty"`
+}
+
+// KVVal is a value as raw bytes; it travels hex-encoded in replay files so that bytes >= 0x80 survive JSON.
+type KVVal string
+
+func (v KVVal) MarshalJSON() ([]byte, error) { return json.Marshal(hex.EncodeToString([]byte(v))) }
+func (v *KVVal) UnmarshalJSON(b []byte) error {
+	var s string
+	if err := json.Unmarshal(b, &s); err != nil {
+		return err
+	}
+	raw, err := hex.DecodeString(s)
+	if err != nil {
+		return err
+	}
+	*v = KVVal(raw)
+	return nil
 }
 
 // KVWL is the workload.
@@ -104,6 +125,7 @@ func genKV(c *core.Ctx) (KVCfg, KVWL) {
 	g := c.Gen
 	cfg := KVCfg{Store: kvStores[g.Intn(len(kvStores))], MO: []string{"append", "counter"}[g.Intn(2)], Conc: g.Intn(5) < 2, Sched: genSchedCfg(g, false)}
 	cfg.Sched.TimeEvery = 0
+	cfg.MossGate = g.Intn(4) != 0
 	nreaders := 1 + g.Intn(3)
 	n := 60 + g.Intn(120)
 	if c.Quick {
@@ -111,23 +133,51 @@ func genKV(c *core.Ctx) (KVCfg, KVWL) {
 	}
 	wl := KVWL{}
 	nk := len(kvKeys)
+	lastStart := map[[2]int]int{} // (client, slot) -> lower bound of the iterator opened there last
+	var recent []int              // keys of the latest batch operations: reads aim at them half of the time
+	var present, recentDel []int  // keys that exist / were deleted lately, as far as the generator can tell
+	pick := func() int {
+		if len(recentDel) > 0 && g.Intn(4) == 0 {
+			return recentDel[len(recentDel)-1-g.Intn(min(len(recentDel), 3))]
+		}
+		if len(recent) > 0 && g.Intn(2) == 0 {
+			return recent[len(recent)-1-g.Intn(min(len(recent), 8))]
+		}
+		return g.Intn(nk)
+	}
 	for i := 0; i < n; i++ {
 		if g.Intn(3) == 0 {
-			op := KVOp{C: 0, K: "batch", Ex: g.Intn(2) == 0}
+			op := KVOp{C: 0, K: "batch", Ex: g.Intn(2) == 0, MR: g.Intn(3) == 0}
 			used := map[int]bool{}
 			for j := 0; j < 1+g.Intn(10); j++ {
 				k := g.Intn(nk)
+				kind := g.Intn(5)
+				if kind == 0 && len(present) > 0 && g.Intn(4) != 0 {
+					k = present[g.Intn(len(present))] // most deletes hit a key that exists
+				}
 				if used[k] {
 					continue // the interface does not define the order between operations on one key inside a batch
 				}
 				used[k] = true
-				switch g.Intn(5) {
+				recent = append(recent, k)
+				if kind == 0 {
+					recentDel = append(recentDel, k)
+					for x, pk := range present {
+						if pk == k {
+							present = append(present[:x], present[x+1:]...)
+							break
+						}
+					}
+				} else if !slices.Contains(present, k) {
+					present = append(present, k)
+				}
+				switch kind {
 				case 0:
 					op.Ops = append(op.Ops, KVBOp{T: "del", Key: k})
 				case 1, 2:
-					op.Ops = append(op.Ops, KVBOp{T: "merge", Key: k, Val: string([]byte{byte(1 + g.Intn(200)), 0, 0, 0, 0, 0, 0, 0})})
+					op.Ops = append(op.Ops, KVBOp{T: "merge", Key: k, Val: KVVal([]byte{byte(1 + g.Intn(200)), 0, 0, 0, 0, 0, 0, 0})})
 				default:
-					v := string([]byte{byte(i), byte(j), 0, 0, 0, 0, 0, 0})
+					v := KVVal([]byte{byte(i), byte(j), 0, 0, 0, 0, 0, 0})
 					if g.Intn(6) == 0 {
 						v = ""
 					}
@@ -137,8 +187,43 @@ func genKV(c *core.Ctx) (KVCfg, KVWL) {
 			wl.Ops = append(wl.Ops, op)
 			continue
 		}
-		op := KVOp{C: 1 + g.Intn(nreaders), It: g.Intn(2), Key: g.Intn(nk), A: g.Intn(nk+1) - 1, Z: g.Intn(nk+1) - 1}
-		op.K = []string{"open", "get", "get", "multiget", "prefix", "range", "next", "next", "next", "seek", "cur", "itclose", "close", "next", "cur"}[g.Intn(15)]
+		if len(recent) > 0 && g.Intn(12) == 0 {
+			// a directed probe: a fresh reader, an iterator whose lower bound is a key that was just written or deleted,
+			// a few steps forward, then a seek back to (or near) that bound
+			cl, slot, k := 1+g.Intn(nreaders), g.Intn(2), pick()
+			wl.Ops = append(wl.Ops, KVOp{C: cl, K: "close"}, KVOp{C: cl, K: "open"})
+			if g.Intn(2) == 0 {
+				wl.Ops = append(wl.Ops, KVOp{C: cl, K: "prefix", It: slot, Key: k})
+			} else {
+				wl.Ops = append(wl.Ops, KVOp{C: cl, K: "range", It: slot, A: k, Z: g.Intn(nk+1) - 1})
+			}
+			for j := g.Intn(3); j > 0; j-- {
+				wl.Ops = append(wl.Ops, KVOp{C: cl, K: "next", It: slot})
+			}
+			sk := k
+			if g.Intn(3) == 0 {
+				sk = pick()
+			}
+			wl.Ops = append(wl.Ops, KVOp{C: cl, K: "seek", It: slot, Key: sk}, KVOp{C: cl, K: "next", It: slot})
+			lastStart[[2]int{cl, slot}] = k
+			continue
+		}
+		op := KVOp{C: 1 + g.Intn(nreaders), It: g.Intn(2), Key: pick(), A: g.Intn(nk+1) - 1, Z: g.Intn(nk+1) - 1}
+		op.K = []string{"open", "get", "get", "multiget", "prefix", "range", "next", "next", "next", "seek", "cur", "itclose", "close", "next", "cur", "seek", "open"}[g.Intn(17)]
+		switch op.K {
+		case "range":
+			if g.Intn(2) == 0 {
+				op.A = pick() // a range that starts exactly at a key that was just written or deleted
+			}
+			lastStart[[2]int{op.C, op.It}] = op.A
+		case "prefix":
+			lastStart[[2]int{op.C, op.It}] = op.Key
+		case "seek":
+			// half of the seeks go back to the lower bound of the iterator (or just around it)
+			if st, ok := lastStart[[2]int{op.C, op.It}]; ok && st >= 0 && g.Intn(2) == 0 {
+				op.Key = st
+			}
+		}
 		if op.K == "multiget" {
 			for j := 0; j < 1+g.Intn(5); j++ {
 				op.Ks = append(op.Ks, g.Intn(nk))
@@ -211,38 +296,12 @@ func kvScenario(c *core.Ctx) {
 	env := NewEnv(c, sched.Config{Policy: sched.PolUniform}, 1)
 	defer env.Finish()
 	sig := map[string]string{"store": cfg.Store}
-	var mo store.MergeOperator = appendMO{}
-	if cfg.MO == "counter" {
-		mo = counterMO{}
-	}
-	kcfg := map[string]interface{}{"path": ""}
-	name := cfg.Store
-	switch cfg.Store {
-	case "boltdb":
-		kcfg["path"] = filepath.Join(c.Dir, "kv")
-		kcfg["initialMmapSize"] = 64 << 20
-	case "goleveldb":
-		kcfg["path"] = filepath.Join(c.Dir, "kv")
-		kcfg["create_if_missing"] = true
-	case "metrics-gtreap":
-		name = "metrics"
-		kcfg["kvStoreName_actual"] = "gtreap"
-	case "metrics-boltdb":
-		name = "metrics"
-		kcfg["kvStoreName_actual"] = "boltdb"
-		kcfg["path"] = filepath.Join(c.Dir, "kv")
-		kcfg["initialMmapSize"] = 64 << 20
-	}
-	ctor := registry.KVStoreConstructorByName(name)
-	if ctor == nil {
-		c.Res.Harness = "no KV store " + name
-		return
-	}
-	st, err := ctor(mo, kcfg)
+	st, mo, gate, err := openKVStore(cfg, c.Dir)
 	if err != nil {
 		c.Res.Harness = "open store: " + err.Error()
 		return
 	}
+	defer gate.done()
 	m := kvModel{}
 	readers := map[int]*kvReader{}
 	checks := 0
@@ -295,6 +354,7 @@ func kvScenario(c *core.Ctx) {
 				break
 			}
 			_ = w.Close()
+			gate.settle(op.MR)
 			c.Probe("batch")
 			continue
 		}
@@ -417,7 +477,14 @@ func kvScenario(c *core.Ctx) {
 				// only seek to keys at or beyond the start of the range (the other case is not defined)
 				if bytes.Compare(k, mi.start) >= 0 {
 					it.Seek(k)
+					was := mi.pos
 					mi.pos = sort.SearchStrings(mi.keys, string(k))
+					if mi.pos < was {
+						c.Probe("seek_backward")
+					}
+					if _, live := rd.m[string(k)]; !live {
+						c.Probe("seek_to_absent_key")
+					}
 					checkIt(fmt.Sprintf("Seek(%x)", k), it, mi)
 					c.Probe("seek")
 				}
@@ -456,6 +523,7 @@ func kvScenario(c *core.Ctx) {
 		}
 		_ = rd.r.Close()
 	}
+	gate.done()
 	if err := st.Close(); err != nil {
 		viol("close-error", "store Close: %v", err)
 	}
